@@ -139,6 +139,9 @@ func c01case(c *runner.Ctx, i int) {
 	for _, m := range res.mismatches {
 		c.Violation(fmt.Sprintf("C01:wrong-response:v%d", ec.version), "a caller received a response that belongs to another request: "+m, wit)
 	}
+	for _, s := range res.recvStalls {
+		c.Violation("C01:response-never-delivered", "the responses the node sent never reach the callers that wait for them: "+s, wit)
+	}
 	for _, s := range res.streamReuse {
 		c.Violation(fmt.Sprintf("C01:stream-reused-while-pending:v%d", ec.version), "a request was sent on a stream id whose previous response had not been written yet: "+s, wit)
 	}
